@@ -353,7 +353,7 @@ Section Safe.
     \/ (s = ds_write eqf dm sink page /\ t = newtok /\ r = None /\ page <> []).
   Proof.
     unfold proc_inc. intros H.
-    destruct (nonempty page && is_sinkfail flt idx) eqn:E1.
+    destruct (nonempty page && sink_fails flt idx page) eqn:E1.
     { injection H as <- <- <-. left. repeat split. destruct page; [discriminate|congruence]. }
     destruct (nonempty page && is_sinkpanic flt idx).
     { injection H as <- <- <-. right; left. auto. }
@@ -459,7 +459,7 @@ Section Safe.
     unfold proc_full. intros H. destruct page as [|x page].
     - cbn in H. injection H as <- <-. right; right; left. auto.
     - cbn [nonempty andb negb] in H. assert (Hne : x :: page <> []) by discriminate.
-      destruct (is_sinkfail flt idx). { injection H as <- <-. left. auto. }
+      destruct (sink_fails flt idx (x :: page)). { injection H as <- <-. left. auto. }
       destruct (is_sinkpanic flt idx). { injection H as <- <-. right; left. auto. }
       destruct (is_kill flt idx). { injection H as <- <-. right; left. auto. }
       injection H as <- <-. right; right; right. auto.
@@ -895,6 +895,9 @@ Section Union.
   Qed.
 End Union.
 
+Lemma early_fail_none r : r_flt r = FNone -> early_fail r = false.
+Proof. unfold early_fail. intros ->. cbn. now rewrite !andb_false_r. Qed.
+
 (** ** Whole runs on the persisted state *)
 
 Lemma nth_none_tokens srcs k : nth k (none_tokens srcs) None = None.
@@ -969,8 +972,8 @@ Section Runs.
     good owner n st -> wf_op owner n (ORun r) -> r_full r = false ->
     run_job v st r = (st', o) -> good owner n st'.
   Proof.
-    intros (Hn & Hown & Hts) (Hb & Hn1 & Hsingle) Hfull H.
-    unfold run_job in H. destruct (r_union r && is_srcfail (r_flt r) 0).
+    intros (Hn & Hown & Hts) (Hb & Hn1 & Hsingle & _) Hfull H.
+    unfold run_job in H. destruct (early_fail r).
     { rewrite Hfull in H. injection H as <- <-. split; [exact Hn|]. split; [exact Hown | exact Hts]. }
     unfold run_body in H. rewrite Hfull in H. fold eqf dm in H.
     destruct Hts as [Hlen Hs].
@@ -1006,8 +1009,8 @@ Section Runs.
     intros Hg Hwf Hfull Hflt.
     destruct (run_job v st r) as [st' o] eqn:Hrun.
     pose proof (run_inc_safe _ _ _ _ Hg Hwf Hfull Hrun) as Hg'.
-    destruct Hg as (Hn & Hown & Hts). destruct Hwf as (Hb & Hn1 & Hsingle).
-    unfold run_job in Hrun. rewrite Hflt in Hrun. cbn [is_srcfail] in Hrun. rewrite andb_false_r in Hrun.
+    destruct Hg as (Hn & Hown & Hts). destruct Hwf as (Hb & Hn1 & Hsingle & _).
+    unfold run_job in Hrun. rewrite (early_fail_none _ Hflt) in Hrun.
     unfold run_body in Hrun. rewrite Hfull, Hflt in Hrun. fold eqf dm in Hrun.
     destruct Hts as [Hlen Hs].
     destruct (r_union r) eqn:Hu.
@@ -1068,8 +1071,8 @@ Section Runs.
     r_full r = true -> run_job v st r = (st', OOk) ->
     st_srcs st' = st_srcs st /\ converged st' /\ foreign_deleted st' /\ good owner n st'.
   Proof.
-    intros Hn Hnt Hown (Hb & Hn1 & Hsingle) Hfull H.
-    unfold run_job in H. destruct (r_union r && is_srcfail (r_flt r) 0); [discriminate|].
+    intros Hn Hnt Hown (Hb & Hn1 & Hsingle & _) Hfull H.
+    unfold run_job in H. destruct (early_fail r); [discriminate|].
     unfold run_body in H. rewrite Hfull in H. fold eqf dm in H.
     destruct (r_union r) eqn:Hu.
     - destruct (full_union _ _ _ _ _ _ _ _ _ _ _) as [[[s mem] seen] o1] eqn:Hrun in H.
@@ -1122,7 +1125,7 @@ Lemma run_full_token v st r st' o :
   st_srcs st' = st_srcs st /\
   st_tok st' = match vm_fs v with FsKeep => st_tok st | FsReset => none_tokens (st_srcs st) end.
 Proof.
-  intros Hfull H Ho. unfold run_job in H. destruct (r_union r && is_srcfail (r_flt r) 0).
+  intros Hfull H Ho. unfold run_job in H. destruct (early_fail r).
   { rewrite Hfull in H. injection H as <- <-. auto. }
   unfold run_body in H. rewrite Hfull in H.
   destruct (r_union r).
@@ -1134,7 +1137,7 @@ Qed.
 
 Lemma run_srcs v st r st' o : run_job v st r = (st', o) -> st_srcs st' = st_srcs st.
 Proof.
-  unfold run_job. destruct (r_union r && is_srcfail (r_flt r) 0); [intros [= <- <-]; reflexivity|].
+  unfold run_job. destruct (early_fail r); [intros [= <- <-]; reflexivity|].
   unfold run_body. intros H. destruct (r_full r), (r_union r).
   - destruct (full_union _ _ _ _ _ _ _ _ _ _ _) as [[[s mem] seen] o1] in H.
     destruct o1; injection H as <- <-; reflexivity.
@@ -1164,8 +1167,8 @@ Lemma run_idem owner n v st r :
   r_full r = false -> r_flt r = FNone ->
   run_job v st r = (st, OOk).
 Proof.
-  intros Hend Hn (Hb & Hn1 & Hsingle) Hfull Hflt.
-  unfold run_job. rewrite Hflt. cbn [is_srcfail]. rewrite andb_false_r.
+  intros Hend Hn (Hb & Hn1 & Hsingle & _) Hfull Hflt.
+  unfold run_job. rewrite (early_fail_none _ Hflt).
   unfold run_body. rewrite Hfull, Hflt. destruct st as [srcs sink tok]. cbn [st_srcs st_sink st_tok] in *.
   destruct (r_union r) eqn:Hu.
   - rewrite inc_union_idem; [reflexivity | assumption | lia | unfold fuel_of; lia].
@@ -1237,9 +1240,11 @@ Section Histories.
     good owner n st -> wf_op owner n o -> step v st o = (st', out) ->
     vm_fs v = FsReset \/ ~ failed_full o out -> good owner n st'.
   Proof.
-    intros Hg Hwf H Hc. destruct o as [k es|es|r].
+    intros Hg Hwf H Hc. destruct o as [k es|es| | |r].
     - pose proof (write_good st k es Hg Hwf) as G. rewrite H in G. exact G.
     - pose proof (sinkwrite_good st es Hg Hwf) as G. rewrite H in G. exact G.
+    - destruct Hwf.
+    - cbn [step] in H. injection H as <- _. exact Hg.
     - cbn [step] in H. destruct (run_job v st r) as [st1 o1] eqn:Hrun. injection H as <- <-.
       apply (run_safe st r st1 o1 Hg Hwf Hrun).
       destruct Hc as [Hc|Hc]; [now left|right].
@@ -1303,11 +1308,11 @@ Definition own0 : Z -> nat := fun _ => 0.
     Every run is fault-free and successful, the token is at the end, the views differ. *)
 Definition h_eqlen : list op :=
   [ OWrite 0 [mkV 1 0 0 true];
-    ORun (mkR false false 2 [true] FNone);
+    ORun (mkR false false 2 [true] FNone []);
     OWrite 0 [mkV 1 4 0 false];
     OWrite 0 [mkV 1 13 0 false];
-    ORun (mkR false false 2 [true] FNone);
-    ORun (mkR false false 2 [true] FNone) ].
+    ORun (mkR false false 2 [true] FNone []);
+    ORun (mkR false false 2 [true] FNone []) ].
 
 Lemma refuted_eqlen :
   Forall (wf_op own0 1) h_eqlen
@@ -1329,9 +1334,9 @@ Qed.
 Definition h_fskeep : list op :=
   [ OWrite 0 [mkV 1 1 0 false];
     OWrite 0 [mkV 1 2 0 false];
-    ORun (mkR false false 1 [false] FNone);
-    ORun (mkR true false 1 [false] (FKill 0));
-    ORun (mkR false false 1 [false] FNone) ].
+    ORun (mkR false false 1 [false] FNone []);
+    ORun (mkR true false 1 [false] (FKill 0) []);
+    ORun (mkR false false 1 [false] FNone []) ].
 
 Lemma refuted_fskeep :
   Forall (wf_op own0 1) h_fskeep
